@@ -19,8 +19,9 @@ Proof. exact abort_safe_loops. Qed.
 Print Assumptions C33_validator_sound.
 
 (* Lifting over calls: in an accepted function every path from the entry (or from a resume
-   point after YIELD / AWAIT, or the body entry of a generator/promise) to a RETURN*,
-   RETURN_FINALLY or YIELD executes an abort check first.  So an activation that completes has
+   point after YIELD / AWAIT, or the body entry of a generator/promise) to a RETURN,
+   RETURN_SELF, RETURN_FIRST_ARG or YIELD executes an abort check first (RETURN_FINALLY is not
+   covered: see Base/Cfg.v is_exit).  So an activation that completes has
    run a check; recursion and native-driven iteration hit one check per completed call. *)
 Theorem C33_exits_checked : forall f, abort_safe f = true ->
   forall a p, In a (starts f) -> epath f (a :: p) ->
@@ -39,3 +40,17 @@ Example C33_nonvacuous :
 Proof.
   split; [|split]; eexists; (split; [vm_compute; reflexivity|]); vm_compute; repeat split; reflexivity.
 Qed.
+
+(* REFUTED for tail calls (finding dynamic:hang:tail-recursion): `def rec(k: Int): Int; rec(k + 1); end`
+   compiled by the real compiler with abort checks is SELF GET_LOCAL_1 INT_1 ADD_INT
+   CALL_METHOD_BC8(tail call) CHECK_ABORT RETURN.  The function is accepted by the validator (its
+   only exit is preceded by a check, it has no cycle), yet no check node sits at or before the
+   tail call at offset 4, which replaces the frame: the check is never executed.  The two
+   theorems above are per activation and therefore partial: they say nothing about an endless
+   chain of tail calls, none of which completes. *)
+Theorem C33_tailcall_refuted :
+  exists f, build optable (mkraw [108; 40; 218; 9; 116; 0; 248; 1] [VCallBC] [] 1 0) = Some f /\
+            abort_safe f = true /\
+            forallb (fun i => negb (i_check i) || (4 <? i_off i)) (f_instrs f) = true.
+Proof. eexists; (split; [vm_compute; reflexivity|]); vm_compute; split; reflexivity. Qed.
+Print Assumptions C33_tailcall_refuted.
